@@ -48,7 +48,10 @@ pub fn native_fn(ctx: &Ctx, name: &str, args: Vec<V>, line: u32) -> R<V> {
             if args.len() != 1 {
                 return ctx.fail(EK::Type, line);
             }
-            ctx.sh.out.borrow_mut().push(display(&args[0]));
+            match display_checked(&args[0]) {
+                Some(t) => ctx.sh.out.borrow_mut().push(t),
+                None => return Err(Ctl::Discard("value prints to more than 64 KiB")),
+            }
             Ok(V::Nil)
         }
         "type" => {
@@ -222,7 +225,10 @@ pub fn native_method(ctx: &Ctx, recv: &V, name: &str, args: Vec<V>, line: u32) -
             // static methods of String
             want(ctx, &args, 1, line)?;
             match name {
-                "from" => Ok(V::str(&display(&args[0]))),
+                "from" => match display_checked(&args[0]) {
+                    Some(t) => Ok(V::str(&t)),
+                    None => Err(Ctl::Discard("value prints to more than 64 KiB")),
+                },
                 "from_ascii" | "from_utf8" | "from_code_points" => {
                     let items = match &args[0] {
                         V::Vec(v) => v.items.borrow().clone(),
